@@ -6,12 +6,12 @@ namespace sim {
 
 enum MK { MK_ANY, MK_VAL, MK_EQ, MK_NE, MK_LT, MK_LE, MK_GT, MK_GE, MK_NOTEQ, MK_ANYOF, MK_TYPEDANY,
           // range matchers over the argument {a, a + 1, a} of v(const std::vector<int>&)
-          MK_RINC2, MK_RINC11, MK_RIS, MK_RSTART, MK_RENDS, MK_RPERM, MK_RALL, MK_RNONE, MK_RANY };
+          MK_RINC2, MK_RINC11, MK_RIS, MK_RSTART, MK_RENDS, MK_RPERM, MK_RALL, MK_RNONE, MK_RANY, MK_RNOTIS };
 enum WK { WK_LE, WK_GE, WK_NE, WK_EQ, WK_LT12, WK_NESNAP, WK_LTMAC };
 enum BF { BF_DEFAULT, BF_T2, BF_T13, BF_T02, BF_AL1, BF_AL2, BF_AM2, BF_RT1, BF_RT2, BF_ALLOW, BF_FORBID, BF_T0,
           BF_T11, BF_AL0, BF_T3, BF_T24, BF_RTAL, BF_RTAM };
 enum RK { RK_NONE, RK_VAL, RK_LRVAL, RK_THROW_STD, RK_THROW_INT, RK_REF_PARAM, RK_REF_CELL, RK_STR, RK_LRSTR, RK_CREF_PARAM, RK_CREF_CELL, RK_CREF_CAPT,
-          RK_STR_PARAM, RK_LRSTR_VAR, RK_PAIR, RK_LRPAIR_VAR, RK_LRTHROW_VAR };
+          RK_STR_PARAM, RK_LRSTR_VAR, RK_PAIR, RK_LRPAIR_VAR, RK_LRTHROW_VAR, RK_THROW_CSTR };
 
 // function indices of MockT
 enum FN { FN_F1 = 0, FN_F2 = 1, FN_G = 2, FN_R = 3, FN_C = 4, FN_U = 5, FN_S = 6, FN_K = 7, FN_Z = 8, FN_V = 9, FN_P = 10, FN_CF = 11, NFN = 12 };
